@@ -139,14 +139,10 @@ async def _open(**_kw):
     return _Open.last
 
 
-class _Direct(StreamTransport):
-    async def _open_connection(self):
-        return await _open()
-
-
 def _transport(flavour: int):
     if flavour == 0:
-        return _Direct()
+        # the base class through its abstract hook while that (private) hook has the known shape, else a TCP transport
+        return lib.direct_stream_transport(_open) or TCPTransport("direct.example", 5003)
     if flavour == 1:
         return TCPTransport("gw.example", 5003)
     return SerialTransport("/dev/ttyFAKE", 57600)
